@@ -12,6 +12,9 @@ def _extract_sqlstate(args: Iterable[object]) -> str | None:
     """
     Try to pull a 5-character SQLSTATE (e.g., HYT00, 40001) out of pyodbc args.
     """
+    if not isinstance(args, tuple | list):
+        # A subclass may shadow `args` with anything (None, a number, ...): nothing to scan then.
+        return None
     for arg in args:
         if isinstance(arg, str):
             match = _SQLSTATE_RE.search(arg)
